@@ -197,6 +197,27 @@ pub fn run(cli: &Cli, rep: &Report) {
                 }
             }
         }
+        // ... and the same place reached by a *flush*: the first write ends k bytes before the end of the window buffer (so the
+        // next write moves the window), flush() leaves the match finder with pending positions (it needs nice_len bytes of
+        // look-ahead), then more data arrives. Data with period ~ dict_size, so that the finder follows far candidates.
+        for o in minigrid(&[4096, 65536]).into_iter().chain([Opts { dict: 65536, lc: 3, lp: 0, pb: 2, fast: true, bt4: true, nice: 273, depth: 0 }]) {
+            let cont = Container::Lzma2;
+            if !cont.accepts(&o) {
+                continue;
+            }
+            mc_core::alloc::begin();
+            let _ = mc_core::run::catch(|| crate::codec::encode(&cont, &o, &[1, 2, 3], &[]));
+            let b = mc_core::alloc::biggest_bytes_request().max(8192);
+            let d = o.dict as usize;
+            for k in [0usize, 1, 100, 272, 273, 300, 481, 544, 545, 546, 600] {
+                for period in [d, d - 36] {
+                    let first = b - k;
+                    let total = first + 100_000;
+                    let sh = vec![Seg::R(period), Seg::D(period, total - period)];
+                    wcases.push(Case { cont: cont.clone(), opts: o, input: Input::Shape(sh), ops: vec![Op::Write(first), Op::Flush], bias: 0 });
+                }
+            }
+        }
         rep.extra("window_full", json!({"cases": wcases.len(), "window_sizes": sizes}));
         run_phase(rep, cli, "window_full", 0, wcases.len(), &|i| Some(wcases[i].clone()));
     }
